@@ -193,6 +193,22 @@ def cold(recipe):
     return observe(compute(recipe))
 
 
+def cold_with_object(recipe):
+    harness.reset_caches()
+    m = compute(recipe)
+    return observe(m), m
+
+
+def same_object(w, c) -> bool:
+    """The warm and the cold result of one operation are 'the same result': equal objects with equal hashes (two
+    results with the same text and class can still differ in state that == looks at; everything that is keyed on
+    marker equality - dedup, the merge/cnf/dnf caches - would then treat them differently later on)."""
+    try:
+        return w == c and c == w and hash(w) == hash(c)
+    except TypeError:
+        return True
+
+
 def diff_kind(w, c):
     if w["table"] != c["table"] or w["is_any"] != c["is_any"] or w["is_empty"] != c["is_empty"]:
         return "meaning"
@@ -261,7 +277,7 @@ def make_machine(acc, max_steps):
         def teardown(self):
             if not self.ops:
                 return
-            harness.process(sys.modules[MOD], acc, "history", {"ops": self.ops, "warm": self.warm}, "machines", isolate=False)
+            harness.process(sys.modules[MOD], acc, "history", {"ops": self.ops, "warm": self.warm, "_objs": self.results}, "machines", isolate=False)
 
     return History
 
@@ -302,7 +318,7 @@ def two_step(acc, fam_idx, shard, nshards):
         if pi % nshards != shard:
             continue
         try:
-            cold_obs[pi] = cold(p)
+            cold_obs[pi], cold_m = cold_with_object(p)
         except Exception:  # noqa: BLE001  (a crash is C02's business)
             continue
         for h in hist:
@@ -311,14 +327,15 @@ def two_step(acc, fam_idx, shard, nshards):
             harness.reset_caches()
             try:
                 compute(h)
-                w = observe(compute(p))
+                wm = compute(p)
+                w = observe(wm)
             except Exception:  # noqa: BLE001
                 continue
             acc.oracle_evaluations += 1
             if h != p:
                 acc.nontrivial_exhaustive += 1
             d = diff_kind(w, cold_obs[pi])
-            if d:
+            if d or not same_object(wm, cold_m):
                 ops = _recipe_to_ops(h)
                 ops = ops + _recipe_to_ops(p, base=len(ops))
                 harness.process(mod, acc, "history", {"ops": ops}, layer, isolate=False)
@@ -462,6 +479,7 @@ def evaluate(kind, case, acc):
         return
     ops = case["ops"]
     warm = case.get("warm")
+    results = case.pop("_objs", None)  # live objects from the machine: never part of a recorded case
     if warm is None:
         harness.reset_caches()
         results, warm = [], []
@@ -472,7 +490,7 @@ def evaluate(kind, case, acc):
     seen = {}
     for k, op in enumerate(ops):
         recipe = recipe_of(ops, k)
-        c = cold(recipe)
+        c, c_obj = cold_with_object(recipe)
         acc.oracle_evaluations += 1
         mine = set(recipe_atoms(recipe))
         earlier = set()
@@ -485,6 +503,9 @@ def evaluate(kind, case, acc):
         d = diff_kind(warm[k], c)
         if d:
             acc.fail(kind, f"warm-differs-from-cold:{d}:{op[0]}", {"ops": ops[: k + 1]}, expected={"cold": {x: c[x] for x in ("text", "class", "is_any", "is_empty")}}, got={"warm": {x: warm[k][x] for x in ("text", "class", "is_any", "is_empty")}, "table_equal": warm[k]["table"] == c["table"], "probe": k})
+            break
+        if results is not None and not same_object(results[k], c_obj):
+            acc.fail(kind, f"warm-differs-from-cold:object-equality:{op[0]}", {"ops": ops[: k + 1]}, expected="warm result == cold result (same text, same class)", got={"text": c["text"], "warm == cold": results[k] == c_obj, "cold == warm": c_obj == results[k], "probe": k})
             break
     if len(ops) >= 4:
         acc.sample({"ops": [o if o[0] != "parse" else ["parse", render_tree(o[1])] for o in ops[:8]], "n_ops": len(ops), "last": warm[-1]["text"]}, "histories")
